@@ -258,6 +258,11 @@ func (ex *Exec) applyContract(fr *Frame, st *State, c *FuncContract, pnames []st
 	}
 	pre := st.clone()
 	env := &Env{ex: ex, vars: vars, st: pre, old: pre, pkg: pkg}
+	for f := fr; f != nil; f = f.parent {
+		if f.entry != nil {
+			env.entryWm = f.entry.wm
+		}
+	}
 	if ex.inSpec == 0 {
 		for j, r := range c.Requires {
 			g, err := env.boolExpr(r.E, true)
